@@ -2543,8 +2543,6 @@ def correspondence(ctx):
     for c in c0_cases:
         req.append("cbtf0 %d %d %s %s %s" % (c["M"].shape[0], len(c["bset"]), ints(c["bset"]), bits(c["a"]), bits(c["M"])))
 
-    if os.environ.get("C06_DUMP"):
-        open(os.environ["C06_DUMP"], "w").write("\n".join(req) + "\n")
     rep = drv.ask(req)
     if any(r == "bad-op" for r in rep):
         raise Infra("C06 driver rejected request %r" % req[rep.index("bad-op")][:60])
